@@ -20,7 +20,6 @@ package main
 // an entry point. Termination and allocation inside dependencies are declined.
 
 import (
-	"strconv"
 	"bytes"
 	"fmt"
 	"go/constant"
@@ -30,6 +29,7 @@ import (
 	"os/exec"
 	"regexp"
 	"sort"
+	"strconv"
 	"strings"
 
 	"golang.org/x/tools/go/callgraph"
